@@ -891,6 +891,13 @@ class SgzReader(object):
                     values = np.frombuffer(buffer, dtype=np.int32)
                     self.variant_headers[k] = values[self.mask] if use_mask else values
 
+    def _load_variant_headers(self, include_padding, tracefields=None):
+        """Used by the reading methods, each of which needs one particular padding mode: if arrays
+        were cached in the other mode by an earlier call, reload them instead of failing"""
+        if not self.structured and self.include_padding not in (None, include_padding):
+            self.clear_variant_headers()
+        self.read_variant_headers(include_padding=include_padding, tracefields=tracefields)
+
     def get_tracefield_1d(self, tracefield):
         """Efficiently provides all trace header values for a given trace header field
 
@@ -904,7 +911,7 @@ class SgzReader(object):
         -------
         header_array : numpy.ndarray of int32, shape (tracecount)
         """
-        self.read_variant_headers(include_padding=True, tracefields=[segyio.tracefield.TraceField(tracefield)])
+        self._load_variant_headers(include_padding=True, tracefields=[segyio.tracefield.TraceField(tracefield)])
         return self.variant_headers[tracefield]
 
     def get_tracefield_values(self, tracefield):
@@ -951,7 +958,7 @@ class SgzReader(object):
         for k, v in header.items():
             if isinstance(v, FileOffset):
                 if load_all_headers or not self.structured:
-                    self.read_variant_headers()
+                    self._load_variant_headers(include_padding=False)
                     header[k] = self.variant_headers[k][index]
                 else:
                     buf = self.file.read_range(self.file, v + 4*index, 4)  # A 32-bit int is 4 bytes
